@@ -27,7 +27,10 @@ KNOWN pre-existing defects, classified and not fixed (class strings):
   join-mutates-operand           Action.join(match_coord_values=True) - every binary operation between two actions - overwrites
                                  the coordinates of the operand passed in
   size1-squeeze-mutates-operand  concatenate / stack on a size-1 dimension squeeze the action itself (_combine_nodes)
-  batch-transform-mutates        _batch_transform squeezes its selected action in place when select() returned self
+  batch-transform-mutates        _batch_transform squeezes its selected action in place when select() returned self (classified if it
+                                 ever shows; through the public API select() never returns self there, no program of the space hits it)
+
+`replay_case(inputs)` re-runs the case(s) recorded in a failure's "inputs" on the current tree and returns the failures found.
 
 FOUND DEFECTS (genuine, reproduced standalone on the unchanged tree; each has its own class string)
 
@@ -140,6 +143,7 @@ class _K:
             "f(k=1)": P(f, kwargs={"k": 1}), "f(k=2)": P(f, kwargs={"k": 2}), "f(1,k=1)": P(f, ["input0", 1], {"k": 1}),
             "g(1)": P(g, ["input0", 1]), "pf(3)": functools.partial(f, 3), "f[3]": P(f, [3]), "yf": yf, "yl": yl,
         }
+        self.arr_payloads = [P(f, ["input0", i]) for i in range(8)]
         self.tmap = lambda act, p: act.map(P(f, ["input0", p]))
 
 
@@ -342,6 +346,11 @@ class Env:
             return a.map(K.pool[st[1]])
         if kind == "map_y":
             return a.map(K.pool[st[1]], yields=("yy", [0, 1]))
+        if kind == "map_arr":  # one payload per node
+            arr = np.empty(a.nodes.shape, dtype=object)
+            for i, idx in enumerate(np.ndindex(*a.nodes.shape)):
+                arr[idx] = K.arr_payloads[i % 8] if st[1] == "f(i)" else (l1, l2)[i % 2]
+            return a.map(arr)
         if kind == "reduce":
             return a.reduce(K.pool[st[1]], dim=dim(st[2]))
         if kind == "stat":
@@ -410,11 +419,17 @@ BIN_OPS = ["add", "subtract", "multiply", "divide", "power"]
 
 
 def gen_steps(cur, level, tier):
-    """the alphabet of next steps for the action `cur`; level 'core' is a subset of level 'full'"""
+    """the alphabet of next steps for the action `cur`; 'mini' is a subset of 'core', 'core' a subset of 'full'"""
     dims = [str(d) for d in cur.nodes.dims]
     nd = len(dims)
     last = nd - 1
     out = []
+    if level == "mini":
+        out += [("map", "f"), ("map", "l1"), ("map_y", "yf"), ("bin", "add", "Bd", False), ("bin", "subtract", "Bd", True), ("transform", "map2"),
+                ("select_none",)]
+        if nd:
+            out += [("reduce", "f", 0), ("stat", "sum", last, 2, False), ("concatenate", 0, False), ("select", 0, "list1")]
+        return out
     if level == "core":
         out += [("map", p) for p in ("f", "l1", "l2", "f(1)")]
         out += [("map_y", "yf"), ("sbin", "add", 2), ("bin", "add", "B", False), ("bin", "add", "Bd", False),
@@ -425,6 +440,7 @@ def gen_steps(cur, level, tier):
         return out
     pool = ["f", "g", "l1", "l2", "h1", "h2", "f(1)", "f(2)", "f('1')", "f(k=1)", "f(k=2)", "f(1,k=1)", "g(1)", "pf(3)", "f[3]"]
     out += [("map", p) for p in pool]
+    out += [("map_arr", "f(i)"), ("map_arr", "l1/l2")]
     if "yy" not in cur.nodes.coords:
         out += [("map_y", p) for p in ("yf", "yl")]
     stats = ["sum", "mean", "std"] + (["min", "max", "prod"] if tier == "thorough" else [])
@@ -752,7 +768,7 @@ def _plans(tier):
     s5 = (("x", 2), ("y", 1), ("z", 2))
     return [(s1, ["full", "core"]), (s1, ["core", "full"]), (s2, ["full", "core"]), (s2, ["core", "full"]),
             (s3, ["full", "core"]), (s3, ["core", "full"]), (s4, ["full", "core"]), (s5, ["full"]), (s5, ["core", "core"]),
-            (s2, ["core", "core", "core"])]
+            (s2, ["mini", "mini", "mini"])]
 
 
 def _static_values():
@@ -784,12 +800,12 @@ def run(out, tier, seed):
         "fluent programs over shared sources", "exhaustive enumeration",
         "every program start=source A followed by steps s1..sk with s_i drawn from the i-th listed alphabet, for: " + plans_txt +
         ". Alphabet 'full' = map with 15 payloads (2 named functions, 2 lambdas, 2 functions both named h, same function with "
-        "args 1/2/'1', kwargs k=1/k=2, args+kwargs, partial), generator map, reduce with 6 payloads per dim, "
+        "args 1/2/'1', kwargs k=1/k=2, args+kwargs, partial), map with an array of per-node payloads x2, generator map x2, reduce with 6 payloads per dim, "
         "sum/mean/std" + ("/min/max/prod" if tier == "thorough" else "") + " per dim x batch_size {0,2} x keep_dim, concatenate/stack per dim x keep_dim, flatten, "
         "select/iselect (scalar, drop, last, 1-list, 2-list) per dim, select({}), expand x3, broadcast x2, 5 scalar binary ops, "
         + ("5" if tier == "thorough" else "2") + " action binary ops x operand {same program on source B (equal coords), same program on source Bd (different coord values), "
         "A.map(g), self} x both operand orders, join x {B,Bd} x {new dim, new Coord, existing dim, match_coord_values}, transform x "
-        "{func returns its argument x2, func maps x3, select on scalar coord}; alphabet 'core' = 18 of these. Sources: A plain functions, "
+        "{func returns its argument x2, func maps x3, select on scalar coord}; alphabet 'core' = 18 of these, alphabet 'mini' = 11 of 'core'. Sources: A plain functions, "
         "B/Bd Payload(readb,[i]). Each program is built 3 times (oracles in the module docstring); programs of <= 1 step are built a 4th time "
         "after all others and every node of the name table is re-inspected then. "
         "Non-trivial = distinct program with >= 1 step all of whose operations returned (programs with a raising operation are "
@@ -802,12 +818,13 @@ def run(out, tier, seed):
     scratch = Env(chk, shape, False)
     full1 = gen_steps(scratch.src("A"), "full", tier)
     if tier == "quick":
-        alpha = [s for s in full1 if s[0] in ("map", "map_y") or (s[0] == "reduce" and s[2] == 0)
+        alpha = [s for s in full1 if s[0] in ("map", "map_y", "map_arr") or (s[0] == "reduce" and s[2] == 0)
                  or s in (("stat", "sum", 0, 0, False), ("sbin", "add", 2), ("sbin", "add", 3), ("sbin", "subtract", 2),
                           ("bin", "add", "B", False), ("bin", "add", "Bd", False), ("bin", "add", "B", True), ("bin", "subtract", "B", False),
                           ("select", 0, "scalar"), ("select", 0, "last"))]
     else:
-        alpha = full1
+        alpha = [s for s in full1 if not (s[0] == "stat" and (s[4] or s[1] in ("min", "max", "prod"))) and not (s[0] in ("concatenate", "stack") and s[2])
+                 and not (s[0] == "bin" and s[1] in ("multiply", "divide", "power")) and s[0] != "iselect"]
     progs = [(s,) for s in alpha]
     if tier == "thorough":
         progs += [(a, b) for a in gen_steps(scratch.src("A"), "core", tier) for b in (("map", "f"), ("map", "l1"), ("map", "l2"), ("sbin", "add", 2))]
@@ -817,7 +834,8 @@ def run(out, tier, seed):
         "pairs of fluent programs over shared sources", "exhaustive enumeration",
         f"every unordered pair (with repetition) of {len(progs)} programs on shape {dict(shape)} built from the same source actions: "
         + ("1-step programs over all map / generator-map payloads, all reduce payloads on dim 0, sum, 3 scalar ops, 4 action binary ops, 2 selects"
-           if tier == "quick" else "all 1-step programs of alphabet 'full' and 2-step programs core x {map f, map l1, map l2, add 2}")
+           if tier == "quick" else "all 1-step programs of alphabet 'full' except keep_dim variants, min/max/prod, iselect and multiply/divide/power between "
+           "actions, and the 2-step programs core x {map f, map l1, map l2, add 2}")
         + "; oracles: shared name table, Cascade.from_actions([P, Q]) has unique names, serialise / graph2job consistent, no action changed while the other "
         "program is built. Non-trivial = both programs build and differ.",
         chk.cases, len(chk.nontrivial), time.time() - chk.t0, chk.samples, chk.take_failures())
@@ -853,7 +871,7 @@ def run(out, tier, seed):
     # ---- 4. seeded random programs beyond the bound ----------------------------------------------------------------------
     chk.reset_counts()
     rng = random.Random(seed)
-    n_rand = 60 if tier == "quick" else 1500
+    n_rand = 60 if tier == "quick" else 800
     shapes = [(("x", 3),), (("x", 2), ("y", 3)), (("e", 1), ("x", 2)), (("x", 4), ("y", 2)), (("x", 2), ("y", 2), ("z", 2))]
     for _ in range(n_rand):
         shape = rng.choice(shapes)
